@@ -31,7 +31,7 @@ PROPS = {
         "rule": "scalar: (type, x, y) with x,y from a mixture of uniform, log-uniform to 1e300, breakpoints and 1-3 ulp neighbours (y adjacent to x half of the time); "
                 "module: vectors of length 1-8; name: codes 0-255 and registered/mangled/random names; every case is non-trivial, distinct = distinct (type, high bits of x and y) / (type, len, high bits) / (code, name)",
         "assumptions": ["reference = closed forms written in the harness from the documented definitions", "inputs finite with |x| <= 1e300"],
-        "expect_classes": {"scalar": ["negative zero input", "huge input", "monotonicity pair"], "module": ["all entries below -9.3e18"], "name": ["registered code", "unregistered code", "registered name", "unknown name"], "calls": ["several refused requests in one sequence", "custom activator registered on another factory"]},
+        "expect_classes": {"scalar": ["negative zero input", "huge input", "monotonicity pair"], "module": ["all entries below -9.3e18", "more than 16 inputs"], "name": ["registered code", "unregistered code", "registered name", "unknown name"], "calls": ["several refused requests in one sequence", "custom activator registered on another factory"]},
     },
     "C19": {
         "run": "^TestC19",
@@ -44,7 +44,7 @@ PROPS = {
         "rule": "series: mixture of small-integer / uniform / wide-range / fitness-like values, ascending, descending or shuffled; non-trivial = non-empty and not ascending; "
                 "aggregates: non-trivial = at least 2 trials and 3 generations; distinct by (n, leading value, median) resp. (trials, generations, solved trials)",
         "assumptions": ["champions are non-nil (the record format has no presence marker and the library always sets one)", "fitness ties between champions admit any of the tied organisms"],
-        "expect_classes": {"series": ["empty series", "empty series that is not nil", "not ascending", "large common offset, small spread"], "aggregates": ["accessors called before the comparison", "solved trial", "solved and unsolved trials", "trial without generations", "no trials"]},
+        "expect_classes": {"series": ["empty series", "empty series that is not nil", "not ascending", "large common offset, small spread"], "aggregates": ["accessors called before the comparison", "experiment-level best organism located", "solved trial", "solved and unsolved trials", "trial without generations", "no trials"]},
     },
     "C06": {
         "run": "^TestC06",
@@ -111,7 +111,7 @@ PROPS = {
         "rule": "topologies: 2/3 cyclic G-net (link probability 0.05-0.6, self-loops, recurrent flags, parallel links), 1/6 DAG, 1/6 modular genome through Genesis; operations: load / activate(k) / forward(k) / recursive / depth-with-cap(k) for the network, load / forward(k) / recursive / relax(k, delta) for the fast solver; "
                 "non-trivial = the network has a cycle and the history contains an activation after a sensor load; distinct by (solver, #nodes, #links, history length, sequence length)",
         "assumptions": ["bit equality of outputs (NaN equals NaN): both instances perform the same floating-point operations in the same order"],
-        "expect_classes": {"flush": ["network with cycles", "feed-forward network", "modular network", "fast solver", "standard solver", "history activates after a sensor load"], "organism": ["recurrent organism"]},
+        "expect_classes": {"flush": ["network with cycles", "feed-forward network", "modular network", "fast solver", "standard solver", "history activates after a sensor load", "neuron with an unregistered activation type (activations fail)"], "organism": ["recurrent organism"]},
     },
     "C14": {
         "run": "^TestC14",
@@ -149,7 +149,7 @@ PROPS = {
         "rule": "1-5 trials x 1-8 generations, per trial a solved generation or none, fault none/error/cancel at a generated point, observer present 3/4, Trials nil or pre-sized, sequential or parallel executor, population 3-8; "
                 "non-trivial = a trial solved before its last generation or a fault after a completed trial; distinct by the whole scenario tuple",
         "assumptions": ["after a fault only 'no further evaluation, no repeated notification, fault returned' is required; a cancellation in the very last planned generation may return nil"],
-        "expect_classes": {"protocol": ["fault:none", "fault:error", "fault:cancel", "evaluator error kind:canceled", "evaluator error kind:deadline", "evaluator failed in the generation it reported solved", "pre-sized record longer than the configured number of trials", "the experiment value was run once before", "with observer", "without observer", "parallel executor", "trial solved before the last generation", "fault after a completed trial"]},
+        "expect_classes": {"protocol": ["fault:none", "fault:error", "fault:cancel", "evaluator error kind:canceled", "evaluator error kind:deadline", "evaluator failed in the generation it reported solved", "pre-sized record longer than the configured number of trials", "the experiment value was run once before", "options copied from a used object, context from the copy", "context that already carried other options", "with observer", "without observer", "parallel executor", "trial solved before the last generation", "fault after a completed trial"]},
     },
     "C01": {
         "run": "^TestC01",
@@ -250,6 +250,7 @@ PROPS = {
         "shards": 12,
         "gomaxprocs": [16, 1, 2, 4],
         "replay_times": 5,
+        "schedule_dependent": True,
         "timeout_quick": 1500,
         "timeout_thorough": 5400,
         "technique": "property-based testing (rapid) under the Go race detector: generated population histories with the parallel executor (1..PopSize species, high structural-mutation rates, several GOMAXPROCS values); any race report is a violation, and the C01/C02/C03/C10 invariants are checked after every parallel turnover",
@@ -273,7 +274,7 @@ PROPS = {
         "level_note": "trusted: the canonical dump covers every exported field of organisms, genomes and species and the population counters; 'unrelated earlier work' is sampled by a fixed menu of interference, not enumerated",
         "rule": "G-epochs scenarios with the sequential executor, 1-20 (30) epochs, structural rates biased upwards; non-trivial = at least 5 epochs and the genomes grew (structural mutation and crossover took place); distinct by (constructor, epochs, size, program, seed, dump length)",
         "assumptions": ["the global math/rand source is seeded by the harness per run (go.mod go 1.23, so rand.Seed is effective; asserted at start-up)"],
-        "expect_classes": {"rerun": ["constructor:spawn", "constructor:random", "constructor:read", "constructor:reread", "fitness:genome", "genomes grew", "modular start genome", "large population", "second run with options copied from a used object", "second run with the options object of earlier work, settings overwritten in place", "generated unrelated scenario between the runs"]},
+        "expect_classes": {"rerun": ["constructor:spawn", "constructor:random", "constructor:read", "constructor:reread", "fitness:genome", "genomes grew", "modular start genome", "large population", "second run with options copied from a used object", "add-link searches that run long", "second run with the options object of earlier work, settings overwritten in place", "generated unrelated scenario between the runs"]},
     },
 }
 
